@@ -208,7 +208,9 @@ fn sample_entry(t: &MTrack) -> BoxT {
         Codec::Aac => {
             let e = EsdsF { es_id: 1, object_type: 0x40, stream_type: 5, buffer_size: 0, max_bitrate: t.aac.3, avg_bitrate: t.aac.3,
                 aot: t.aac.0, freq_index: t.aac.1, freq: 48000, chan: t.aac.2, ..Default::default() };
-            enc_mp4a(&AudioF { channelcount: t.aac.2 as u16, ..Default::default() }, vec![enc_esds(&e)])
+            // the sample entry's own channel count is informative; keep it plausible (2) when the
+            // AudioSpecificConfig does not name a layout
+            enc_mp4a(&AudioF { channelcount: if (1..=7).contains(&t.aac.2) { t.aac.2 as u16 } else { 2 }, ..Default::default() }, vec![enc_esds(&e)])
         }
         Codec::Ttxt => enc_tx3g(&Tx3gF::default()),
     }
